@@ -51,13 +51,13 @@ case "$ID" in
   replay)
     RP=$(jq -r .property "$2" 2>/dev/null)
     if needs_overlay "$RP"; then
-      [ "$RP" = C11 ] && OVGEN_EXTRA=(-stmtpoints)
+      { [ "$RP" = C11 ] || [ "$RP" = C12 ]; } && OVGEN_EXTRA=(-stmtpoints)
       prepare_overlay; build "$BIN" "${OVFLAGS[@]}"
     else build "$BIN"; fi
     "$BIN" replay "$2"; exit $?;;
 esac
 if needs_overlay "$ID"; then
-  [ "$ID" = C11 ] && OVGEN_EXTRA=(-stmtpoints)
+  { [ "$ID" = C11 ] || [ "$ID" = C12 ]; } && OVGEN_EXTRA=(-stmtpoints)
   prepare_overlay
   build "$BIN" "${OVFLAGS[@]}"
   if [ "$ID" = C12 ]; then
